@@ -236,6 +236,9 @@ func init() {
 					o := measure(func() { md, _, err = loaders[which](bytes.NewReader(data)) })
 					check(which+".Load", o)
 					status := "err"
+					if o.status != "panic" && err == nil && md == nil {
+						c.res.fail(Failure{Class: "C09:neither-value-nor-error:" + which + ".Load", Desc: which + ".Load returned neither metadata nor an error (" + what + "): a caller that checks err and then uses the value crashes", Input: in, Got: "(nil, stream, nil)", Want: "a value or an error"})
+					}
 					if o.status == "panic" {
 						status = "panic"
 					} else if err == nil && md != nil {
@@ -587,7 +590,9 @@ func checkPlatform386(c *ctx) {
 			c.res.fail(Failure{Class: "C09:platform-386:process", Desc: fmt.Sprintf("the GOARCH=386 build stopped (%v) on hostile profile #%d: crash, hang or exhausted memory on a 32-bit platform", err, i), Input: pc.in, Got: fmt.Sprint(err), Want: pc.status})
 			return
 		}
-		if lines[i] != pc.status {
+		// the kind of outcome is compared (description / description error / error / escaped panic), not the text: a
+		// multi-localised tag with several records of equal rank may legitimately yield any of them
+		if strings.SplitN(lines[i], " ", 2)[0] != strings.SplitN(pc.status, " ", 2)[0] {
 			c.res.fail(Failure{Class: "C09:platform-386", Desc: "ReadProfile/Description on the GOARCH=386 build differs from this platform's outcome (panic = a panic escaped there)", Input: pc.in, Got: short(lines[i], 120), Want: short(pc.status, 120)})
 			return
 		}
